@@ -361,8 +361,8 @@ MERGE = True
 
 def expand(blob, tier, acc):
     layout, hist = blob
-    if tier == "quick" and tuple(layout) == (2, 1, 1) and len(hist) >= 3:
-        return []  # quick: depth 3 from the widest layout (its event menu is the largest), depth 4 from the others
+    if tuple(layout) == (2, 1, 1) and len(hist) >= (3 if tier == "quick" else 4):
+        return []  # the widest layout has the largest event menu: depth 3 (quick) / 4 (thorough) from it, depth 4 / 5 from the others
     circ0, m0 = build(layout, list(hist))
     res = []
     for ev in events(circ0, m0):
